@@ -346,6 +346,21 @@ fn gen_case(rng: &mut Rng, nusers: usize) -> Case {
                 rows[j].ws = gen_units(rng, j, nrows, nsys, true, false);
             }
         }
+        // a row that re-defines the surface of a system word with another POS or reading, and a compound of this dictionary
+        // that refers inline (surface, POS, reading) to the SYSTEM word and to the re-definition
+        if rng.chance(1, 3) {
+            let n = rng.below(nsys as u64) as usize;
+            let (pos, reading) = match rng.below(3) {
+                0 => ((sys[n].pos + 1 + rng.below(NPOOL as u64 - 2) as usize) % (NPOOL - 1), sys[n].reading.clone()),
+                1 => (sys[n].pos, format!("{}ベツ", sys[n].reading)),
+                _ => ((sys[n].pos + 1) % (NPOOL - 1), format!("ベツ{}", sys[n].reading)),
+            };
+            let shadow = rows.len();
+            rows.push(Row { surface: sys[n].surface.clone(), reading, pos, a: vec![], b: vec![], ws: vec![] });
+            let units = if rng.chance(1, 2) { vec![Unit::Inline(false, n), Unit::Inline(true, shadow)] } else { vec![Unit::Inline(true, shadow), Unit::Inline(false, n)] };
+            let (a, b) = if rng.chance(1, 2) { (units.clone(), vec![]) } else { (vec![Unit::Sys(n), Unit::Own(shadow)], units.clone()) };
+            rows.push(Row { surface: format!("u{}c{}", d + 1, shadow), reading: format!("フク{}", d), pos: rng.below(NPOOL as u64 - 1) as usize, a, b, ws: vec![] });
+        }
         // a short katakana word (shorter than the join plugin's minLength) that unknown katakana can be glued to
         if rng.chance(1, 2) {
             let pos = rng.below(NPOOL as u64) as usize;
@@ -558,12 +573,41 @@ fn pos_requests(rows: &[Row], sys: &[Row]) -> (Vec<usize>, Vec<usize>) {
     (reqs, idx)
 }
 
-/// build-time stamp of a reference: (0, n) for the system dictionary, (1, n) for the dictionary being built
-fn build_stamp(u: &Unit) -> u32 {
+/// build-time stamp of a reference: (0, n) for the system dictionary, (1, n) for the dictionary being built.
+/// An inline reference names a word by (surface, POS, reading): it is the first row of the dictionary being compiled with
+/// exactly that triple, else the first such word of the system dictionary (`user` = a user dictionary is being compiled)
+fn build_stamp(u: &Unit, own: &[Row], sys: &[Row], user: bool) -> u32 {
+    let own_dic = if user { 1u32 << 28 } else { 0 };
     match u {
-        Unit::Sys(n) | Unit::Inline(false, n) => *n as u32,
-        Unit::Own(n) | Unit::Inline(true, n) => (1u32 << 28) | *n as u32,
+        Unit::Sys(n) => *n as u32,
+        Unit::Own(n) => own_dic | *n as u32,
+        Unit::Inline(o, n) => {
+            let t = if *o { &own[*n] } else { &sys[*n] };
+            let same = |r: &Row| r.surface == t.surface && r.pos == t.pos && r.reading == t.reading;
+            if let Some(j) = own.iter().position(same) {
+                own_dic | j as u32
+            } else if let Some(j) = sys.iter().position(same) {
+                j as u32
+            } else {
+                u32::MAX
+            }
+        }
     }
+}
+
+/// Coq term (Model/CodecResolve.v split_unit) of a reference as written in the CSV
+fn unit_term(u: &Unit, own: &[Row], sys: &[Row], user: bool) -> String {
+    match u {
+        Unit::Sys(n) => format!("SRef {}", cnu(*n)),
+        Unit::Own(n) => format!("SRef {}", cn(if user { (1u32 << 28) | *n as u32 } else { *n as u32 })),
+        Unit::Inline(o, n) => {
+            let t = if *o { &own[*n] } else { &sys[*n] };
+            format!("inline_of {} {} {}", ctext(&t.surface), cnu(t.pos), ctext(&t.reading))
+        }
+    }
+}
+fn key_term(r: &Row) -> String {
+    format!("key3 {} {} {}", ctext(&r.surface), cnu(r.pos), ctext(&r.reading))
 }
 
 #[derive(Debug, PartialEq, Clone)]
@@ -785,8 +829,10 @@ fn run_case(sink: &mut Sink, c: &Case, verbose: bool) {
     // observations: every word of every layer
     let mut obs = vec![];
     let mut nontrivial = false;
+    let mut res_dicts: Vec<String> = vec![];
     for dno in 0..=nlayers {
         let rows: &Vec<Row> = if dno == 0 { &c.sys } else { &c.users[dno - 1].1 };
+        let mut res_rows: Vec<String> = vec![];
         for (i, r) in rows.iter().enumerate() {
             let id = WordId::new(dno as u8, i as u32);
             let got = catch(|| {
@@ -812,7 +858,21 @@ fn run_case(sink: &mut Sink, c: &Case, verbose: bool) {
                 Ok(s) => Some(intern(s)),
                 Err(_) => None,
             };
-            let want: Vec<u32> = r.a.iter().chain(r.b.iter()).chain(r.ws.iter()).map(build_stamp).collect();
+            let want: Vec<u32> = r.a.iter().chain(r.b.iter()).chain(r.ws.iter()).map(|u| build_stamp(u, rows, &c.sys, dno > 0)).collect();
+            // an inline reference must resolve to a word that IS what it names: same surface, POS and reading
+            for (u, got_id) in r.a.iter().chain(r.b.iter()).zip(splits.iter()) {
+                if let Unit::Inline(o, n) = u {
+                    let t = if *o { &rows[*n] } else { &c.sys[*n] };
+                    let (gd, gi) = ((*got_id >> 28) as usize, (*got_id & 0x0fff_ffff) as usize);
+                    let grows: Option<&Vec<Row>> = if gd == 0 { Some(&c.sys) } else { c.users.get(gd - 1).map(|x| &x.1) };
+                    match grows.and_then(|x| x.get(gi)) {
+                        Some(g) if g.surface == t.surface && g.pos == t.pos && g.reading == t.reading => {}
+                        Some(g) => fail(format!("word ({}, {}) {:?}: the inline reference {:?} / {:?} / {:?} is bound to word ({}, {}) which is {:?} / {:?} / {:?} (dictionary and POS of the sub-unit are then wrong)", dno, i, r.surface, t.surface, pos_fields(t.pos), t.reading, gd, gi, g.surface, pos_fields(g.pos), g.reading), ""),
+                        None => fail(format!("word ({}, {}) {:?}: the inline reference to {:?} is bound to ({}, {}), which no dictionary holds", dno, i, r.surface, t.surface, gd, gi), ""),
+                    }
+                }
+            }
+            res_rows.push(format!("({}, {})", clist(r.a.iter().chain(r.b.iter()).chain(r.ws.iter()).map(|u| unit_term(u, rows, &c.sys, dno > 0))), clist(splits.iter().map(|w| cn(*w)))));
             let want_loaded: Vec<u32> = want.iter().map(|w| if w >> 28 != 0 { ((dno as u32) << 28) | (w & 0x0fff_ffff) } else { *w }).collect();
             if surf != r.surface {
                 fail(format!("word ({}, {}) has surface {:?}, CSV row says {:?}", dno, i, surf, r.surface), "");
@@ -841,6 +901,7 @@ fn run_case(sink: &mut Sink, c: &Case, verbose: bool) {
                 clist(splits.iter().map(|w| cn(*w)))
             ));
         }
+        res_dicts.push(format!("({}, {}, {})", cnu(dno), clist(rows.iter().map(key_term)), clist(res_rows)));
     }
     // system words must read the same with and without user dictionaries
     match (&base_view, &sys_view(&dict, c.sys.len())) {
@@ -999,7 +1060,7 @@ fn run_case(sink: &mut Sink, c: &Case, verbose: bool) {
         Ok(Err(e)) => fail(format!("tokenizing {:?} failed: {}", text, e), ""),
         Err(p) => fail(format!("tokenizing {:?} panicked: {}", text, p), ""),
     }
-    let term = format!("check_case_c12m {} {} {} {} {}", head, cbool(loaded_ok), clist(obs), clist(mobs), clist(merged));
+    let term = format!("check_case_c12r {} {} {} {} {} {} {}", head, cbool(loaded_ok), clist(obs), clist(mobs), clist(merged), clist(c.sys.iter().map(key_term)), clist(res_dicts));
     let id = sink.case(term, d, nontrivial);
     if let Some((w, cl)) = bad.into_inner() {
         if verbose {
@@ -1010,7 +1071,7 @@ fn run_case(sink: &mut Sink, c: &Case, verbose: bool) {
 }
 
 pub fn run(args: &Args) {
-    let mut sink = Sink::new("C12", &args.out, &["Model.LexSet"], args.seed, &args.tier);
+    let mut sink = Sink::new("C12", &args.out, &["Model.LexSet", "Model.Codec", "Model.CodecResolve", "Model.LexSetResolve"], args.seed, &args.tier);
     {
         let dir = args.work.join("c12defs");
         let _ = std::fs::remove_dir_all(&dir);
